@@ -31,4 +31,5 @@ def obligations(tier):
     obls += [kern_obl(0, hn=8, engine='cr32s.c'), kern_obl(1, ntaps=4, engine='cr32s.c')]      # SSE kernels (shufps/movhlps modelled as exact lane permutations)
     if tier == 'thorough':
         obls += [kern_obl(2, order=2, ntaps=4, maxin=2, engine='cr32s.c', timeout=1500), kern_obl(1, ntaps=4, split=1, maxin=2, engine='cr32s.c', timeout=1500)]
+    obls += fifo_obls()      # fifo.h: reserve / compaction / growth / read / trim
     return obls
